@@ -38,9 +38,13 @@ class Fn:
         self.jac_calls = []
         self.fault = None  # None | "raise" | "nan"
         self.fired = None
+        self.n_probes = 0
 
     def func(self, x):
         x = np.asarray(x)
+        if np.iscomplexobj(x) and np.any(x.imag != 0):
+            self.n_probes += 1
+            return self.f(x)  # a complex-step probe: not a request at a design point
         self.calls.append(x.real.astype(float).copy())
         if self.fault == "raise":
             self.fault, self.fired = None, "raise"
@@ -135,8 +139,21 @@ def run(ctx):
     with_lin = t.flag(0.5, "linear_function")
     if with_lin:
         p.add_observable(MDOLinearFunction(lin_coef, "lin", value_at_zero=array([0.75])))
+    complex_step = False
     if not user_jac:
-        p.differentiation_method = p.ApproximationMode.FINITE_DIFFERENCES
+        complex_step = not with_int and t.flag(0.4, "complex_step")
+        if complex_step:
+            # as the optimisation libraries do before a run with complex-step differentiation; the design space may have
+            # served normalisation requests before (an earlier run, a post-processing)
+            if t.flag(0.5, "normalisation_used_before"):
+                finite = np.where(np.isfinite(lb_a) & np.isfinite(ub_a), np.array(x0 + ([1.0] if with_int else [])), 0.0)
+                ds.normalize_vect(finite)
+                ds.get_current_value(normalize=True)
+            p.differentiation_method = p.ApproximationMode.COMPLEX_STEP
+            ds.to_complex()
+            ctx.probe("complex_step_differentiation")
+        else:
+            p.differentiation_method = p.ApproximationMode.FINITE_DIFFERENCES
     use_db = not t.flag(0.15, "no_database")
     store_jac = not t.flag(0.25, "no_jacobian_storage")
     round_ints = not t.flag(0.3, "no_rounding")
@@ -146,7 +163,7 @@ def run(ctx):
     cfg = {"bounds": list(zip(map(str, lbs), map(str, ubs))), "integer": with_int, "normalize": normalize, "database": use_db, "store_jacobian": store_jac,
            "round_ints": round_ints, "user_derivatives": user_jac, "sparse": sparse, "linear": with_lin}
     ctx.event("cfg", canon(cfg))
-    sig = f"norm={int(normalize)} db={int(use_db)} round={int(round_ints)} int={int(with_int)} userjac={int(user_jac)}" + (" ParameterSpace" if param_space else "")
+    sig = f"norm={int(normalize)} db={int(use_db)} round={int(round_ints)} int={int(with_int)} userjac={int(user_jac)}" + (" ParameterSpace" if param_space else "") + (" complex-step" if complex_step else "")
     names = ["f", "g"] + (["lin"] if with_lin else [])
     cfg.update(maximize=maximize, constraint_positive=g_positive, constraint_value=g_offset)
     pfun = {"f": p.objective, "g": p.constraints[0]}
@@ -323,6 +340,7 @@ def run(ctx):
             # i.e. rounded exactly when an unnormalisation step occurred (unnormalisation rounds integers)
             x_key = xp if (normalize or (through_ef and given_norm)) else array(x_phys_given, dtype=float)
             key_exact = tuple(x_key.tolist())
+            probes0 = fns[name].n_probes if name != "lin" else 0
             calls0 = len(fns[name].calls) if name != "lin" else 0
             jcalls0 = len(fns[name].jac_calls) if name != "lin" else 0
             ops.append(("jac" if want_jac else "val", name, j, "evaluate_functions" if through_ef else "direct", "norm" if given_norm else "phys", fault))
@@ -345,10 +363,20 @@ def run(ctx):
                 ctx.fire("caller_reuses_buffer_in_place")
             else:
                 x_arg = x_given.copy()
+            via_current = False
+            # (not with complex-step differentiation: a float current value set after to_complex() turns the space real again)
+            if through_ef and not with_int and not complex_step and t.flag(0.3, "ef_at_current_value"):
+                # no design vector: the request is made at the current value of the design space, read in the stated coordinates
+                try:
+                    p.design_space.set_current_value(x_phys_given.copy())
+                    via_current = True
+                    ctx.probe("evaluate_functions_at_current_value")
+                except Exception:  # noqa: BLE001  (a point the design space refuses as current value)
+                    via_current = False
             try:
                 if through_ef:
                     outs, jacs = p.evaluate_functions(
-                        design_vector=x_arg, design_vector_is_normalized=given_norm,
+                        design_vector=None if via_current else x_arg, design_vector_is_normalized=given_norm,
                         output_functions=None if want_jac else [pfun[name]], jacobian_functions=[pfun[name]] if want_jac else None,
                     )
                     val = jacs[dbn[name]] if want_jac else outs[dbn[name]]
@@ -401,7 +429,7 @@ def run(ctx):
                 ctx.violate("C01.memoised", sig, f"the original function was called again ({new_calls} value / {new_jcalls} Jacobian calls) for the recorded request {ops[-1]}; ops={ops}")
             if had_record:
                 ctx.probe("served_from_database")
-            elif use_db and name != "lin" and not ambiguous and not (new_jcalls if (want_jac and user_jac) else new_calls):
+            elif use_db and name != "lin" and not ambiguous and not (new_jcalls if (want_jac and user_jac) else (new_calls or fns[name].n_probes - probes0)):
                 ctx.violate("C01.faithful_value", sig + " not-evaluated", f"{ops[-1]}: the point {x_key} has no record for this request, yet the original function was not called (served from another point?); ops={ops}")
             if not want_jac:
                 exp = true_value(name, xp)
